@@ -2,7 +2,7 @@ from checks import rapid, plain, fuzz, REPLAY
 
 CHECK = dict(
     pkgdir="cmd/regsync", tags="verif,c18", level="exploration",
-    rule="a case is non-trivial when, in a successful one-shot run, at least one source tag is selected and at least one is excluded by a tag/repository "
+    rule="(session 3: windows platforms selected by os version, indexes with two windows builds) a case is non-trivial when, in a successful one-shot run, at least one source tag is selected and at least one is excluded by a tag/repository "
          "filter, or a backup was due (a selected target tag existed with another digest and a backup template is configured), or a selected tag had been "
          "moved at the target; distinct by (entries incl. filters/platform/mediaTypes/backup/switches, defaults, source and target populations as tag->image "
          "maps, registry feature sets, steps with source changes, YAML style, image graph shapes).",
